@@ -168,6 +168,7 @@ type funcCtx struct {
 }
 
 type Exec struct {
+	abort        bool // stop exploring the current function (a binding failure that repeats on every path)
 	prog         *ssa.Program
 	pkg          *ssa.Package
 	cf           *ContractFile
@@ -742,6 +743,7 @@ func (x *Exec) verifyFunc(fn *ssa.Function, ct *Contract) {
 		li.writes = x.loopWrites(li)
 	}
 	x.cur = fc
+	x.abort = false
 	p := &Path{variants: map[int]string{}, freshT: map[string]bool{}, callOrd: map[string]int{}, lets: map[string]SV{}, freshSeq: map[string]int{}, cellSV: map[string]SV{}}
 	p.H0 = x.newHeap(p)
 	p.H = p.H0
@@ -1168,6 +1170,9 @@ func (x *Exec) runPaths(p0 *Path) {
 		p := work[len(work)-1]
 		work = work[:len(work)-1]
 		x.npaths++
+		if x.abort {
+			return
+		}
 		if x.npaths > x.maxPaths {
 			x.errorf("%s: path budget exceeded", x.cur.ct.Func)
 			return
